@@ -61,11 +61,20 @@ def _events(args):
                 else:
                     if cds:
                         continue
-                    obj = FeatureInterval([b[0] for b in blocks], [b[1] for b in blocks], Strand.from_symbol(st),
-                                          feature_name="fn", sequence_name="chr",
-                                          parent_or_seq_chunk_parent=par if par else None)
-                    nm, want = rnd.choice([("feature_name", "fn"), ("xyz", "xyz"), ("name", "fn"), ("id", "None"),
-                                           ("guid", None)])
+                    if w is None and rnd.random() < 0.4:
+                        # the other public constructor (from a location), with a name AND an identifier: the name column
+                        # is what the CALLER said, not what the object now reports about itself
+                        from inscripta.biocantor.location.location_impl import CompoundInterval
+
+                        loc = CompoundInterval([b[0] for b in blocks], [b[1] for b in blocks], Strand.from_symbol(st))
+                        obj = FeatureInterval.from_location(loc, feature_name="fn", feature_id="fid", sequence_name="chr")
+                        nm, want = rnd.choice([("feature_name", "fn"), ("feature_id", "fid"), ("name", "fn"), ("id", "fid")])
+                    else:
+                        obj = FeatureInterval([b[0] for b in blocks], [b[1] for b in blocks], Strand.from_symbol(st),
+                                              feature_name="fn", sequence_name="chr",
+                                              parent_or_seq_chunk_parent=par if par else None)
+                        nm, want = rnd.choice([("feature_name", "fn"), ("xyz", "xyz"), ("name", "fn"), ("id", "None"),
+                                               ("guid", None)])
                 if want is None:
                     want = str(getattr(obj, nm))  # read before the export
                 if rnd.random() < 0.25:
